@@ -148,6 +148,7 @@ const (
 	opRemoved
 	opClose
 	opDrain
+	opConcTick // K: the (gc firing) tick that runs concurrently with the next op in cgc cases
 )
 
 type op struct {
@@ -162,6 +163,8 @@ type rcase struct {
 	id                       string
 	kind                     string // R | S
 	cs, gc, to, slots, did   uint64
+	cgcSet                   bool  // concurrent gc case
+	cgc                      int64 // the file system operation (counted from the start of the tick) at which gc is held
 	par                      bool // the streams (one per snapshot key) are fed by concurrent goroutines
 	steady                   bool // a single in-order stream with gaps below the timeout: it must finalise
 	files                    []fileDef
@@ -184,6 +187,8 @@ func (o op) String() string {
 		return "C"
 	case opDrain:
 		return "Z"
+	case opConcTick:
+		return "K"
 	}
 	c := o.chunk
 	return fmt.Sprintf("A %d %d %d %d %d %d %d %d %s %d %d %d %d %s %d %d %s %s %d %d %s %s",
@@ -204,6 +209,8 @@ func parseOp(s string) op {
 		return op{kind: opClose}
 	case "Z":
 		return op{kind: opDrain}
+	case "K":
+		return op{kind: opConcTick}
 	case "A":
 		if len(f) != 23 {
 			panic(fmt.Sprintf("bad add op (%d fields): %s", len(f), s))
@@ -279,6 +286,9 @@ func (c *rcase) String() string {
 	if c.par {
 		b.WriteString(" par=1")
 	}
+	if c.cgcSet {
+		fmt.Fprintf(&b, " cgc=%d", c.cgc)
+	}
 	for i, f := range c.files {
 		if c.kind == "S" {
 			fmt.Fprintf(&b, " F%d=%s@%s", i, hexs(f.path), f.desc)
@@ -330,6 +340,8 @@ func parseCase(line string) *rcase {
 			c.steady = v == "1"
 		case k == "par":
 			c.par = v == "1"
+		case k == "cgc":
+			c.cgc, c.cgcSet = int64(u64(v)), true
 		case k[0] == 'F':
 			fd := fileDef{}
 			if j := strings.IndexByte(v, '@'); j >= 0 {
